@@ -160,6 +160,7 @@ type Unit struct {
 	inputKind     string
 	ghosts        map[string]types.Object
 	ghostTy       map[string]types.Type
+	lamTok        map[string]string
 	heapSorts     map[string]Sort
 	preHeaps      map[string]Sort
 	setupDone     bool
@@ -307,7 +308,9 @@ func ptrHeapName(elem Sort) string   { return "PH_" + elem.Mangle() }
 func fieldHeapName(si *StructInfo, f string) string {
 	return "FH_" + si.GoName + "_" + f
 }
-func mapDomName(k, v Sort) string { return "MD_" + k.Mangle() + "_" + v.Mangle() }
+
+// the key set of a map does not depend on the value type (so generic callee contracts and concrete callers agree on it)
+func mapDomName(k, v Sort) string { return "MD_" + k.Mangle() }
 func mapValName(k, v Sort) string { return "MV_" + k.Mangle() + "_" + v.Mangle() }
 
 const mapLenName = "ML"
@@ -1334,13 +1337,14 @@ func (u *Unit) checkInvariants(env *Env, blk *Block, kind string, pos token.Pos,
 	if blk == nil {
 		return
 	}
-	for i, c := range blk.Of("invariant") {
-		label := c.Label
-		if label == "" {
-			label = fmt.Sprintf("inv%d", i)
+	for i, c0 := range blk.Of("invariant") {
+		if c0.Label == "" {
+			c0.Label = fmt.Sprintf("inv%d", i)
 		}
-		t := u.specExpr(c, env, nil)
-		u.assert(env, fmt.Sprintf("%s/%s/%s", loopName, kind, label), kind, pos, c.Text, t)
+		for _, c := range u.splitClause(c0) {
+			t := u.specExpr(c, env, nil)
+			u.assert(env, fmt.Sprintf("%s/%s/%s", loopName, kind, c.Label), kind, pos, c.Text, t)
+		}
 	}
 }
 
@@ -1370,6 +1374,27 @@ func (u *Unit) coverProbe(env *Env, name string, pos token.Pos, what string) {
 	ob.Queries = append(ob.Queries, Query{Path: u.pos(pos), Pre: append([]Term(nil), env.pc...), Goal: True})
 }
 
+// loop exit summary ("after" clauses of the loop block): each clause is proved in the exit state and then everything
+// learned inside the loop (invariants, exit condition, body facts) is forgotten except those clauses and the havoc facts.
+// Forgetting assumptions is always sound; it keeps the verification conditions after the loop small.
+func (u *Unit) exitSummary(e *Env, blk *Block, cut int, lname string, pos token.Pos) {
+	if blk == nil || len(blk.Of("after")) == 0 || cut > len(e.pc) {
+		return
+	}
+	var keep []Term
+	for i, c0 := range blk.Of("after") {
+		if c0.Label == "" {
+			c0.Label = fmt.Sprintf("after%d", i)
+		}
+		for _, c := range u.splitClause(c0) {
+			t := u.specExpr(c, e, nil)
+			u.assert(e, fmt.Sprintf("%s/after/%s", lname, c.Label), "inv-exit", pos, c.Text, t)
+			keep = append(keep, t)
+		}
+	}
+	e.pc = append(e.pc[:cut:cut], keep...)
+}
+
 func (u *Unit) loopName(s ast.Stmt) string {
 	n := u.loopOrdinal(s)
 	owner := u.curFn[len(u.curFn)-1]
@@ -1397,6 +1422,7 @@ func (u *Unit) execFor(st *ast.ForStmt, env *Env, label string) []Outcome {
 	li := u.scanLoop(st.Body, st.Post, st.Cond)
 	li.modVars = append(li.modVars, u.ghostsSetIn(st)...)
 	u.havocLoop(env, li)
+	cut := len(env.pc)
 	u.assumeInvariants(env, blk)
 	var res []Outcome
 	var branches []condBranch
@@ -1407,6 +1433,7 @@ func (u *Unit) execFor(st *ast.ForStmt, env *Env, label string) []Outcome {
 	}
 	for _, br := range branches {
 		if !br.truth {
+			u.exitSummary(br.env, blk, cut, lname, st.Pos())
 			res = append(res, Outcome{env: br.env, kind: oNext})
 			continue
 		}
@@ -1424,6 +1451,7 @@ func (u *Unit) execFor(st *ast.ForStmt, env *Env, label string) []Outcome {
 				}
 				u.checkInvariants(e, blk, "inv-keep", st.Pos(), lname)
 			case o.kind == oBreak && (o.label == "" || o.label == label):
+				u.exitSummary(o.env, blk, cut, lname, st.Pos())
 				res = append(res, Outcome{env: o.env, kind: oNext})
 			default:
 				res = append(res, o)
@@ -1487,11 +1515,13 @@ func (u *Unit) execRangeSlice(st *ast.RangeStmt, env *Env, label string, x Value
 	if kobj != nil {
 		env.alias[kobj.Name()] = k
 	}
+	cut := len(env.pc)
 	u.assumeInvariants(env, blk)
 	var res []Outcome
 	// exit
 	ex := env.clone()
 	ex.assume(Same(k, n))
+	u.exitSummary(ex, blk, cut, lname, st.Pos())
 	delete(ex.alias, "_i")
 	if kobj != nil {
 		delete(ex.alias, kobj.Name())
@@ -1530,6 +1560,9 @@ func (u *Unit) execRangeSlice(st *ast.RangeStmt, env *Env, label string, x Value
 			}
 			u.checkInvariants(e, blk, "inv-keep", st.Pos(), lname)
 		case o.kind == oBreak && (o.label == "" || o.label == label):
+			o.env.alias["_i"] = k
+			u.exitSummary(o.env, blk, cut, lname, st.Pos())
+			delete(o.env.alias, "_i")
 			res = append(res, Outcome{env: o.env, kind: oNext})
 		default:
 			res = append(res, o)
@@ -1543,7 +1576,9 @@ func (u *Unit) execRangeMap(st *ast.RangeStmt, env *Env, label string, x Value, 
 	kobj, vobj := u.keyObj(st.Key), u.keyObj(st.Value)
 	// ghost enumeration of the keys present at loop entry
 	isNil := Same(x.Term, Term{"nil_Ref", SRef})
-	dom0 := u.define(env, "dom0", Select(u.heap(env, mapDomName(ks, vs), ArrS(SRef, ArrS(ks, SBool))), x.Term))
+	emptyDom := Term{fmt.Sprintf("((as const %s) false)", ArrS(ks, SBool)), ArrS(ks, SBool)}
+	dom0 := u.D.Fresh("dom0", ArrS(ks, SBool))
+	env.assume(Same(dom0, Ite(isNil, emptyDom, Select(u.heap(env, mapDomName(ks, vs), ArrS(SRef, ArrS(ks, SBool))), x.Term))))
 	n := u.D.Fresh("mapn", SInt)
 	env.assume(Same(n, Ite(isNil, IntLit(0), u.mapLen(env, x.Term))))
 	env.assume(le(IntLit(0), n))
